@@ -363,7 +363,10 @@ pub fn corpus_case(g: &mut Gen, no_default_args: bool) -> (String, &'static str)
         return ("fn dsp(){ 0.0 }".into(), "none");
     }
     let (_, src) = usable[g.usize_below(usable.len())];
-    match g.weighted(&[3, 3, 2]) {
+    // mutating a literal or an operator of a recursive function easily removes its base case
+    // (a legitimately non-terminating program): recursive sources are used unmutated
+    let w: [u32; 3] = if is_recursive(src) { [1, 0, 0] } else { [3, 3, 2] };
+    match g.weighted(&w) {
         0 => (src.clone(), "none"),
         1 => {
             // replace one numeric literal by another
@@ -408,4 +411,42 @@ pub fn corpus_case(g: &mut Gen, no_default_args: bool) -> (String, &'static str)
             (format!("{}{}{}", &src[..s], rep, &src[s + l..]), "operator")
         }
     }
+}
+
+/// does any function of this source mention its own name inside its body (or use letrec)?
+pub fn is_recursive(src: &str) -> bool {
+    if src.contains("letrec") {
+        return true;
+    }
+    let b = src.as_bytes();
+    let mut i = 0;
+    while let Some(p) = src[i..].find("fn ") {
+        let start = i + p + 3;
+        let name: String = src[start..].chars().take_while(|c| c.is_alphanumeric() || *c == '_').collect();
+        i = start;
+        if name.is_empty() {
+            continue;
+        }
+        // body: from the first '{' after the name to its matching '}'
+        let Some(open) = src[start..].find('{').map(|x| x + start) else { continue };
+        let mut depth = 0i32;
+        let mut end = open;
+        for (k, ch) in b[open..].iter().enumerate() {
+            if *ch == b'{' {
+                depth += 1;
+            } else if *ch == b'}' {
+                depth -= 1;
+                if depth == 0 {
+                    end = open + k;
+                    break;
+                }
+            }
+        }
+        let body = &src[open..=end.min(src.len() - 1)];
+        let pat = format!("{name}(");
+        if body.contains(&pat) || body.contains(&format!("{name}@")) || body.contains(&format!("|> {name}")) {
+            return true;
+        }
+    }
+    false
 }
